@@ -310,6 +310,34 @@ def gen_nlri_case(rng):
     labels = [rng.choice([0, 3, 100, 2 ** 20 - 1, rng.randrange(2 ** 20)]) for _ in range(nl)]
     return {'k': 3, 'n': [t, labels, a, m]}
 
+def gen_local_path_case(rng):
+    fam = rng.choice([-1, -1, (1 << 16) | 1, (2 << 16) | 1, (1 << 16) | 4, (1 << 16) | 133, (2 << 16) | 133, (25 << 16) | 70])
+    n = gen_api_nlri_case(rng)['api'] if rng.random() < 0.4 else [1, S(rng.choice(['10.0.0.0', '192.0.2.0', '2001:db8::'])), rng.choice([8, 24, 32])]
+    attrs = []
+    for _ in range(rng.choice([0, 1, 2, 3, 4, 6])):
+        x = rng.random()
+        if x < 0.55:
+            a = gen_api_case(rng, rng.choice([2, 3, 4, 5, 6, 7, 8, 9, 10, 11, 14, 21]))['api']
+            # mostly acceptable messages, so that whole paths get through
+            if rng.random() < 0.7:
+                if a[0] == 2: a = [2, rng.choice([0, 1, 2])]
+                elif a[0] == 4: a = [4, S(rng.choice(GOOD_IP4 + ['2001:db8::1', '::1']))]
+                elif a[0] in (8, 10): a = a[:-1] + [S(rng.choice(GOOD_IP4))]
+                elif a[0] == 3: a = [3, [[rng.choice([1, 2, 3, 4]), [65001] * rng.choice([0, 1, 3])] for _ in range(rng.choice([0, 1, 2]))]]
+        elif x < 0.75:
+            # MP_REACH given as raw bytes: [afi:2][safi:1][nh_len:1][nexthop][reserved]
+            nh = rng.choice([[], [192, 0, 2, 1], [0x20, 1] + [0] * 13 + [1], [0x20, 1] + [0] * 13 + [1] + [0] * 16,
+                             [0x20, 1] + [0] * 13 + [1] + [0xfe, 0x80] + [0] * 13 + [2], [1, 2, 3], [0] * 12])
+            ln = len(nh) if rng.random() < 0.85 else rng.choice([0, 4, 16, 33, 255])
+            b = [0, 1, rng.choice([1, 133]), ln] + nh + ([0] if rng.random() < 0.9 else [])
+            if rng.random() < 0.1: b = b[:rng.choice([0, 2, 3, 4])]
+            a = [1, 0, 14, b]
+        else:
+            a = gen_api_case(rng)['api']
+            if a[0] == 9 and a[1] and a[1][0] == 'rep': a = [9, [1, 2]]
+        attrs.append(a)
+    return {'k': 5, 'fam': fam, 'nlri': n, 'attrs': attrs, 'id': rng.choice([0, 1, 7, 2 ** 32 - 1])}
+
 def gen_extcom_api(rng):
     t = rng.choice([1, 1, 2, 2, 3, 3, 4, 5, 6, 7, 8, 9, 10, 11, 0, 99])
     b = lambda: rng.random() < 0.5
@@ -384,7 +412,7 @@ def gen_api_case(rng, variant=None):
 class Prop:
     pid = 'C17'
     props_file = 'Props/C17.v'
-    required_theorems = ['attr_roundtrip_up_to_flags', 'attr_roundtrip_core_outside_known', 'attr_roundtrip_core_refuted', 'from_api_total', 'from_api_preserves_wf', 'wire_values_are_wf', 'wf_is_safe_downstream', 'api_accepted_is_safe', 'nlri_roundtrip_core', 'net_from_api_preserves_wf', 'nlri_encode_safe']
+    required_theorems = ['attr_roundtrip_up_to_flags', 'attr_roundtrip_core_outside_known', 'attr_roundtrip_core_refuted', 'from_api_total', 'from_api_preserves_wf', 'wire_values_are_wf', 'wf_is_safe_downstream', 'api_accepted_is_safe', 'nlri_roundtrip_core', 'net_from_api_preserves_wf', 'nlri_encode_safe', 'local_path_accepts_wf']
     correspondence_name = ('Model/Api.v (wire_accept, to_api, from_api, consumers) vs daemon/src/convert.rs attr_to_api/attr_from_api, '
                            'packet Attribute::{decode,as_path_length,encode}, table RibEntry::cmp via Table::insert (harness/daemon/convert_hx.rs)')
     rule = ('cases = (kind 0) one wire attribute (flags, code, value) decoded by PeerCodec::parse_message then round-tripped through the API form; '
@@ -418,6 +446,7 @@ class Prop:
         if c['k'] == 2: return [2, c['api']]
         if c['k'] == 3: return [3, nlri_to_valx(c['n'])]
         if c['k'] == 4: return [4, c['opts'], c['msg']]
+        if c['k'] == 5: return [5, c['fam'], c['nlri'], c['attrs'], c['id']]
         raise ValueError(c)
 
     def case_to_coq(self, c):
@@ -426,6 +455,9 @@ class Prop:
         if c['k'] == 2: return 'run_api_nlri_case Debug %s' % api_nlri_to_coq(c['api'])
         if c['k'] == 3: return 'run_nlri_case %s' % nlri_to_coq(c['n'])
         if c['k'] == 4: return '(VL [])'     # the wide part has no model: judged by the oracle only
+        if c['k'] == 5:
+            return 'run_local_path_case %s %s %s %s' % ('None' if c['fam'] < 0 else '(Some %s)' % cN(c['fam']), api_nlri_to_coq(c['nlri']),
+                                                      clist([api_to_coq(x) for x in c['attrs']]), cN(c['id']))
         raise ValueError(c)
 
     # ---- generation
@@ -458,6 +490,8 @@ class Prop:
             cases.append({'k': 2, 'api': [1, S(t), 64]})
         for _ in range(nn // 2):
             cases.append({'k': 0, 'flags': T, 'code': NEXTHOP, 'data': v6bytes(v6_rand(rng))})
+        for _ in range(nn):
+            cases.append(gen_local_path_case(rng))
         # wide differential part: whole UPDATEs of every family / attribute kind (oracle only)
         for _ in range(1500 if tier == 'quick' else 30000):
             opts, msg, fam = c17wire.gen_update(rng)
@@ -466,7 +500,20 @@ class Prop:
 
     # ---- running
     def run_impl(self, cases, tier):
-        return rustrun.daemon_test('C17-impl', 'convert::verif_hx::verif_convert_cases', [self.case_to_val(c) for c in cases])
+        # kinds 0..4 run inside daemon/src/convert.rs, kind 5 (GrpcService::local_path) inside event/grpc.rs
+        conv = [(k, c) for k, c in enumerate(cases) if c['k'] != 5]
+        grpc = [(k, c) for k, c in enumerate(cases) if c['k'] == 5]
+        out = [None] * len(cases)
+        for name, test, part in (('C17-impl', 'convert::verif_hx::verif_convert_cases', conv),
+                                 ('C17-impl-grpc', 'event::grpc::verif_hx::verif_grpc_cases', grpc)):
+            if not part:
+                continue
+            obs, err = rustrun.daemon_test(name, test, [self.case_to_val(c) for _, c in part])
+            if obs is None:
+                return None, err
+            for (k, _), o in zip(part, obs):
+                out[k] = o
+        return out, ''
 
     def run_model(self, cases, tier):
         pre = 'From RB Require Import Base.Val Model.Api.\nOpen Scope N_scope.'
@@ -542,6 +589,24 @@ class Prop:
             for cls, txt in fails:
                 return 'wide[%s]: %s' % (cls, txt)
             return None
+        if c['k'] == 5:
+            if obs[0] == 0:
+                return None
+            why = wf_nlri(obs[2])
+            if why:
+                return 'local_path accepted an NLRI outside the wire invariants: ' + why
+            for a in obs[4]:
+                why = wf_attr(a)
+                if why:
+                    return 'local_path accepted an attribute outside the wire invariants: code %d: %s' % (a[0], why)
+                if a[0] in (NEXTHOP, MP_REACH, ORIGINATOR_ID, CLUSTER_LIST, MP_UNREACH):
+                    return 'local_path kept attribute %d in the list handed to the table' % a[0]
+            codes = [a[0] for a in obs[4]]
+            if ORIGIN not in codes or AS_PATH not in codes:
+                return 'local_path produced a path without ORIGIN / AS_PATH'
+            if obs[6] == [-1]:
+                return 'a path assembled by local_path panics Table::insert / the comparator'
+            return None
         if c['k'] == 3:
             if wf_nlri(nlri_to_valx(c['n'])):
                 return None     # not a value a decoder can produce: outside the quantifier
@@ -562,7 +627,7 @@ class Prop:
     def nontrivial_key(self, c, obs):
         if obs == [-1] or not obs:
             return None
-        if c['k'] in (0, 1, 2) and obs[0] == 1:
+        if c['k'] in (0, 1, 2, 5) and obs[0] == 1:
             return json.dumps(self.case_to_val(c))
         if c['k'] == 3 and not wf_nlri(nlri_to_valx(c['n'])):
             return json.dumps(self.case_to_val(c))
@@ -583,6 +648,8 @@ class Prop:
             return ['api_nlri', 'api_nlri:%s:%s' % ({0: 'missing', 1: 'prefix', 2: 'labeled'}.get(c['api'][0]), st)]
         if c['k'] == 3:
             return ['nlri', 'nlri:%d:%s' % (c['n'][0], 'wf' if not wf_nlri(nlri_to_valx(c['n'])) else 'not_decodable')]
+        if c['k'] == 5:
+            return ['local_path', 'local_path:%s:attrs_%d' % ('accepted' if obs and obs[0] == 1 else 'rejected', min(len(c['attrs']), 4))]
         if c['k'] == 4:
             tags = ['wide', 'wide:%s:%s' % (c.get('fam', '?'), 'decoded' if obs and obs[0] == 1 else 'rejected')]
             if obs and obs[0] == 1:
